@@ -33,6 +33,14 @@ CHECKS = {
              text="1.2e4-1.5e5 generated format calls (index, fill, alignment, width, radix, escapes, missing arguments) in-process plus 150-1500 end-to-end runs in both build profiles; held on everything observed.",
              note="Trusted: the reference renderer; arguments restricted to kinds whose display is documented; fills that are also type letters or braces are excluded.",
              design="6/C12"),
+ "C02": dict(level="exploration", technique="differential monitor against a definitional evaluator: random programs compiled and run by the real compiler+VM, observation sequence / final value / error status compared; ill-formed one-fault variants must be rejected",
+             text="4e3-1.5e5 random programs over the whole construct list, targeted evaluation-order programs (side-effecting probes in every operand, argument, element and key position, < <= and assignment included) and one-fault ill-formed variants; held on everything observed. Programs whose evaluation reaches an unspecified corner are discarded and counted.",
+             note="Trusted: gen.py's definitional evaluator (scopes, capture by value, operator model of C09, truthiness of C06) and the generator's static well-formedness check.",
+             design="6/C02"),
+ "C08": dict(level="exploration", technique="crash monitor: panic hook + catch_unwind + worker exit status in-process, exit status / stderr of the real binary (dev and release); every in-process hit is confirmed on the real binary",
+             text="Every builtin x arity 0..4 x ~110 argument values of every kind (boundary numbers, malformed format strings, live file/pcap/packet handles), builtin chains, recursion-depth ladders around the frame and stack limits, many locals/globals/arguments, ill-typed generated programs, exit statuses and 40 filter programs end to end in both profiles; held on everything observed.",
+             note="Exclusions of the property are honoured (no allocation beyond the machine, no self-containing containers). sleep with huge/negative arguments is not judged.",
+             design="6/C08"),
 }
 
 PENDING_REASON = "check not built yet in this session (design in DESIGN.md section 6); not claimed until its monitor runs silently on the unchanged tree"
